@@ -44,6 +44,7 @@ type Lowerer struct {
 
 	// Function resolution
 	functions       map[string]ir.FunctionHandle // Named function lookup (non-entry-point only)
+	userTypeNames   map[string]bool              // Names of the module's struct and alias declarations
 	entryPointFuncs map[string]bool              // Names of entry point functions
 	funcMustUse     map[string]bool              // Functions with @must_use attribute
 
@@ -213,6 +214,13 @@ func LowerWithWarnings(ast *parser.Module, source string) (*LowerResult, error) 
 	// IMPORTANT: Handles are assigned in dependency-sorted order (not source order)
 	// to match Rust naga's visit_ordered() which processes functions in DFS post-order.
 	{
+		l.userTypeNames = make(map[string]bool, len(ast.Structs)+len(ast.Aliases))
+		for _, st := range ast.Structs {
+			l.userTypeNames[st.Name] = true
+		}
+		for _, a := range ast.Aliases {
+			l.userTypeNames[a.Name] = true
+		}
 		// First pass: identify entry points and @must_use functions
 		for _, f := range ast.Functions {
 			if l.entryPointStage(f.Attributes) != nil {
@@ -7437,6 +7445,12 @@ func (l *Lowerer) lowerCall(call *parser.CallExpr, target *[]ir.Statement) (ir.E
 	// same name (fn step(..), fn min(..)).
 	if _, isUser := l.functions[funcName]; isUser {
 		return l.lowerUserFunctionCall(call, isStatement, target)
+	}
+	// So does a struct or alias of the module (struct step { .. }; step(1, 2)).
+	if l.userTypeNames[funcName] {
+		if typeHandle, ok := l.types[funcName]; ok {
+			return l.lowerTypeConstructorCall(typeHandle, call.Args, target)
+		}
 	}
 
 	// Built-ins without a result are statements only; as a value they would
